@@ -223,6 +223,9 @@ func newKern2(k tables.KernData2) Kern2 {
 }
 
 func (kd Kern2) KernPair(left, right GID) int16 {
+	if kd.Left == nil || kd.Right == nil { // NULL offset to a class table
+		return 0
+	}
 	l, _ := kd.Left.Class(tables.GlyphID(left))
 	r, _ := kd.Right.Class(tables.GlyphID(right))
 	index := int(l) + int(r)
@@ -300,6 +303,9 @@ func newAATStableTable(k tables.AATStateTableExt) AATStateTable {
 func (st *AATStateTable) GetClass(glyph GID) uint16 {
 	if glyph == 0xFFFF { // deleted glyph
 		return 2 // class deleted
+	}
+	if st.class == nil { // NULL offset to the class table
+		return 1 // class out of bounds
 	}
 	c, ok := st.class.Class(tables.GlyphID(glyph))
 	if !ok {
